@@ -72,6 +72,7 @@ Upd(a, how) ==
                            ELSE IF pc'[a] = "rFail" THEN [c EXCEPT !.how = how]
                            ELSE [c EXCEPT !.how = "yield", !.yk = CHOOSE k \in rem : k \notin rem']
     [] pc[a] = "rMu"    -> IF pc'[a] = "rFail" THEN [c EXCEPT !.pre = TRUE] ELSE c
+    [] pc[a] \in {"rAct", "rFail"} -> [c EXCEPT !.r = res'[a]]
     [] pc[a] = "ret"    -> [c EXCEPT !.r = res[a]]
     [] OTHER            -> c
 
